@@ -186,6 +186,13 @@ Definition calculate (o : opts) (bt : Z -> Z) (ys : list year) (h : Z) (c : cach
 Definition overdrawn (o : opts) (bt : Z -> Z) (ys : list year) (h : Z) : bool :=
   match fst (recompute o bt ys h cold) with CErr => true | COk _ => false end.
 
+(* second half of the trigger C13.overdrawn_year (its cause): the forecast is shorter than the
+   cycle that is about to start, so the cycle pays the per-block amount more often than forecast *)
+Definition short_forecast (o : opts) (bt : Z -> Z) (ys : list year) (h : Z) : bool :=
+  let st := secs_per_cycle o bt h in
+  let nb := more_blocks o (fst st) (snd st) ys 0 in
+  (0 <? fst nb) && (fst nb <? o_cycle o).
+
 (* the bound the property states for a pulled amount [a], relative to the year records [ys] of the
    block and the cache [c] after the calculation (c_year = the current reward year) *)
 Definition year_left (o : opts) (ys : list year) (i : Z) : Z :=
